@@ -14,3 +14,7 @@ package cmputil
 //@   shape t = anyvals(1) | anyvals(2)
 //@   assigns nothing
 //@   ensures [C06,C09,C05,C07,C08,C10,C02,C20,C04,C03,C11,C13,C16,C15] ignores-only-ref-fields: cmp_options_only(result, "Ref", "AnyOf")
+// The two reference-carrying fields MUST be hidden: a reference is compared as a
+// string, and "#/definitions/X" and "#/$defs/X" (or two relative file names) spell
+// the same target (C13, C10).
+//@   ensures [C13,C10] reference-spelling-is-not-compared: cmp_options_ignore(result, "Ref", "AnyOf")
